@@ -27,7 +27,7 @@ CONFIG = {
     'C19': dict(n=(80, 800), mode='debug'),
 }
 
-LOGICS = [None, None, None, 'QF_LIA', 'QF_UFLIA', 'QF_IDL']
+LOGICS = [None, None, None, 'QF_LIA', 'QF_UFLIA', 'QF_IDL', 'QF_ALIA', 'QF_AUFLIA']
 
 
 def all_configs(r, has_obj, n_extra):
@@ -59,16 +59,20 @@ def all_configs(r, has_obj, n_extra):
     return out
 
 
+# the logics with the theory of arrays, among those SchedulingSolver accepts (a table of the harness: SMT-LIB names)
+ARRAY_LOGICS = {'QF_AUFLIA', 'QF_ALIA', 'QF_AUFLIRA', 'QF_AUFNIA', 'QF_AUFNIRA', 'QF_ANIA'}
+
+
 def coq_cfg(c, ocaml=True):
     opt = 'OptOptimize' if c.get('optimizer') == 'optimize' else 'OptIncremental'
     pr = {'pareto': 'PrPareto', 'lex': 'PrLex', 'box': 'PrBox', 'weight': 'PrWeight'}[c.get('optimize_priority', 'pareto')]
     b = lambda x: 'true' if x else 'false'
     if ocaml:
         return ('{ cf_optimizer = %s; cf_priority = %s; cf_debug = %s; cf_logic = %s; cf_parallel = %s; cf_random = %s; cf_verbosity = n_ %d }'
-                % (opt, pr, b(c.get('debug')), 'Some (n_ 0)' if c.get('logics') else 'None', b(c.get('parallel')),
+                % (opt, pr, b(c.get('debug')), ('Some { lg_id = n_ 0; lg_arrays = %s }' % b(c['logics'] in ARRAY_LOGICS)) if c.get('logics') else 'None', b(c.get('parallel')),
                    b(c.get('random_values')), c.get('verbosity', 0)))
     return ('{| cf_optimizer := %s; cf_priority := %s; cf_debug := %s; cf_logic := %s; cf_parallel := %s; cf_random := %s; cf_verbosity := %d%%nat |}'
-            % (opt, pr, b(c.get('debug')), '(Some 0%nat)' if c.get('logics') else 'None', b(c.get('parallel')),
+            % (opt, pr, b(c.get('debug')), ('(Some {| lg_id := 0%%nat; lg_arrays := %s |})' % b(c['logics'] in ARRAY_LOGICS)) if c.get('logics') else 'None', b(c.get('parallel')),
                b(c.get('random_values')), c.get('verbosity', 0)))
 
 
@@ -599,13 +603,30 @@ def compare_case(args):
                 sub.append((z3.Int(name), z3.IntVal(v)))
             for name, v in rec['bvals'].items():
                 sub.append((z3.Bool(name), z3.BoolVal(v)))
+            residue = []
             for tag, m in base:
                 if z3.is_quantifier(m):
+                    residue.append(m)
                     continue
                 val = z3.simplify(z3.substitute(m, *sub))
                 if z3.is_false(val):
                     out['violations'].append(('invalid-schedule-returned', tag, m.sexpr()[:200]))
                     break
+                if not z3.is_true(val):
+                    residue.append(val)
+            else:
+                # what the integer and boolean values do not decide (arrays, functions, quantified assertions of the buffers):
+                # the values returned must extend to a model of the rest, for a plain solver
+                if residue:
+                    sv = z3.Solver()
+                    sv.set('timeout', 8000)
+                    for m in residue:
+                        sv.add(m)
+                    for a, b in sub:
+                        sv.add(a == b)
+                    if sv.check() == z3.unsat:
+                        out['violations'].append(('invalid-schedule-returned', 'values do not extend to the array / function part',
+                                                  '; '.join(x.sexpr()[:80] for x in residue[:3])))
     except Exception:
         out['diffs'].append(('compare-error', traceback.format_exc()[-600:]))
     return out
